@@ -251,7 +251,7 @@ func (ob *Obligation) Query() string {
 	return b.String()
 }
 
-const preludeExtra = `(define-fun wfslice ((s Slice)) Bool (and (<= 0 (soff s)) (<= 0 (slen s)) (<= (slen s) (scap s)) (=> (= (sarr s) nil) (and (= (slen s) 0) (= (scap s) 0) (= (soff s) 0)))))
+const preludeExtra = `(define-fun wfslice ((s Slice)) Bool (and (<= 0 (soff s)) (<= 0 (slen s)) (<= (slen s) (scap s)) (<= (scap s) 9223372036854775807) (=> (= (sarr s) nil) (and (= (slen s) 0) (= (scap s) 0) (= (soff s) 0)))))
 (define-fun umod ((x Int) (m Int)) Int (mod x m))
 `
 
